@@ -94,6 +94,17 @@ func (m *corsCacheStorageMiddleware) DeleteBucketCORSConfiguration(ctx context.C
 	return err
 }
 
+// DeleteBucket removes the bucket together with its CORS configuration, so the
+// cached entry must not outlive it (a re-created bucket starts without CORS).
+func (m *corsCacheStorageMiddleware) DeleteBucket(ctx context.Context, bucketName storage.BucketName) error {
+	ctx, span := m.tracer.Start(ctx, "CORSCacheStorageMiddleware.DeleteBucket")
+	defer span.End()
+
+	err := m.Next.DeleteBucket(ctx, bucketName)
+	m.invalidate(bucketName.String())
+	return err
+}
+
 func (m *corsCacheStorageMiddleware) lookup(key string) (cacheEntry, bool) {
 	m.mu.RLock()
 	entry, ok := m.entries[key]
